@@ -250,8 +250,10 @@ class PropertyDescriptor(Symbol):
             self._bind_owner_if_container_type(attr, owner=obj)
             setattr(obj, self.private_attr_name, attr)
         if isinstance(attr, MonitoredContainer):
+            # take the new elements first: `value` may be `attr` itself (x.f = x.f, x.f += ...)
+            new_values = make_set(value)
             attr._clear()
-            for v in make_set(value):
+            for v in new_values:
                 attr._add_item(v, inferred=False)
         else:
             setattr(obj, self.private_attr_name, value)
